@@ -81,6 +81,10 @@ fn faults() -> Vec<Fault> {
         f("writes-megabytes-before-reading-exit1", Script, "head -c 3000000 /dev/zero | tr '\\0' 'a'; cat > /dev/null; exit 1", "o=exit utf8=1 st=code:1", Irrelevant, false),
         f("writes-megabytes-before-reading-exit3", Script, "printf '%s' \"$MARK\"; cat; exit 3", "o=exit utf8=1 st=code:3", MarkThenSource, true),
         f("closes-stdout-then-reads-exit1", Script, "exec 1>&-; cat > /dev/null; exit 1", "o=exit utf8=1 st=code:1", Irrelevant, false),
+        // diagnostics on stderr, more than a pipe holds (64 KiB): a failing formatter is usually a talkative one
+        f("chatty-stderr-exit2", Script, "cat > /dev/null; head -c 70000 /dev/zero | tr '\\0' 'e' >&2; exit 2", "o=exit utf8=1 st=code:2", Irrelevant, false),
+        f("chatty-stderr-before-reading-exit101", Script, "head -c 70000 /dev/zero | tr '\\0' 'e' >&2; cat > /dev/null; exit 101", "o=exit utf8=1 st=code:101", Irrelevant, false),
+        f("chatty-stderr-exit0", Script, "printf '%s' \"$MARK\"; cat; head -c 70000 /dev/zero | tr '\\0' 'e' >&2; exit 0", "o=exit utf8=1 st=code:0", MarkThenSource, false),
     ]
 }
 
@@ -378,6 +382,41 @@ fn main() {
     let mut source_sizes = vec![];
     let timeout = Duration::from_secs(if args.thorough() { 90 } else { 60 });
     let real_rustfmt = util::run(std::process::Command::new("rustfmt").arg("--version")).0 == 0;
+
+    // ---- Bindings::write_to_file over a file that already exists: every write replaces the whole file, whatever was there
+    //      (a formatter failure after a good run leaves a shorter text than the one on disk)
+    {
+        let ok_fault = fl.iter().find(|f| f.name == "ok-exit0").unwrap().clone();
+        let bad_fault = fl.iter().find(|f| f.name == "exit1").unwrap().clone();
+        let ok_path = install(&scratch.0, &ok_fault, 900001);
+        let bad_path = install(&scratch.0, &bad_fault, 900002);
+        let absent = scratch.path("no_such_formatter");
+        let target = scratch.path("out_bindings.rs");
+        std::fs::write(&target, "// stale ".repeat(4000)).unwrap();
+        let v = &variants_all[1];
+        let steps: Vec<(&str, Fm, Option<PathBuf>)> = vec![("rustfmt-ok", Fm::Rustfmt, Some(ok_path.clone())), ("rustfmt-exit1", Fm::Rustfmt, Some(bad_path)), ("rustfmt-ok", Fm::Rustfmt, Some(ok_path.clone())),
+            ("rustfmt-absent", Fm::Rustfmt, Some(absent)), ("prettyplease", Fm::Pretty, None), ("none", Fm::None, None), ("rustfmt-ok", Fm::Rustfmt, Some(ok_path)), ("prettyplease", Fm::Pretty, None)];
+        for (k, (name, fm, fmt)) in steps.iter().enumerate() {
+            let case = format!("write_to_file/step{k}/{name}");
+            evaluations += 1;
+            *hist.entry("write_to_file-steps".into()).or_insert(0) += 1;
+            let (want, _) = run_case(&small, v, *fm, fmt.as_deref(), &cfg, timeout);
+            let Observed::Ok(want) = want else { fails.push(Fail { kind: "class", case, detail: format!("write: {}", short(&want)), script: String::new() }); continue };
+            let (header, v2, fmt2, cfg2, target2, fm2) = (small.clone(), (*v).clone(), fmt.clone(), cfg.clone(), target.clone(), *fm);
+            let r = std::thread::spawn(move || {
+                std::panic::catch_unwind(std::panic::AssertUnwindSafe(|| match build(&header, &v2, fm2, fmt2.as_deref(), &cfg2) {
+                    Ok(b) => b.write_to_file(&target2).map_err(|e| e.to_string()),
+                    Err(e) => Err(e),
+                })).unwrap_or_else(|_| Err("panic".into()))
+            }).join().unwrap_or_else(|_| Err("panic".into()));
+            if let Err(e) = r { fails.push(Fail { kind: "class", case, detail: format!("write_to_file failed: {e}"), script: String::new() }); continue; }
+            let got = std::fs::read(&target).unwrap_or_default();
+            if got != want {
+                fails.push(Fail { kind: "bytes", case, detail: format!("the file holds {} bytes, `write` of the same bindings produces {} bytes; first difference at byte {} (what was in the file before is still there?): tail {:?}",
+                    got.len(), want.len(), first_diff(&got, &want), String::from_utf8_lossy(&got[got.len().saturating_sub(60)..])), script: String::new() });
+            }
+        }
+    }
 
     let wide = scratch.path("wide.h");
     std::fs::write(&wide, "int function_with_a_long_name_0(int argument_number_one, unsigned long argument_number_two, const char *argument_number_three);\n").unwrap();
